@@ -26,6 +26,7 @@ import YtkProofs.RebuildB
 import YtkProofs.GapDiffFlatten
 import YtkProofs.GapPointer
 import YtkProofs.ValidB
+import YtkProofs.FuncsPtr
 
 namespace Ytk.C02
 
@@ -243,5 +244,31 @@ theorem nonvacuous_pointer_eval :
     propPath2Pointer ((propsParsePath "a[1].x").map PSeg.toPropSeg) = .ok ["a", "1", "x"] ∧
     (eval ["a", "1", "x"] (.cont exDoc)).2 = some (.leaf ⟨"string", "s"⟩) := by
   decide +kernel
+/-! ## Translated functions (YtkModel/Generated/Funcs.lean, regenerated from the Go source on every
+    run by extract/translate.go): the translation EQUALS the hand-written model, for all inputs.
+    An edit of the Go function changes the regenerated definition and these stop checking. -/
+namespace Ytk.C02
+open Ytk.Generated
+
+/-- utils.ToPath, as translated from the source, is the model's `toPath` (all strings) -/
+theorem ToPath_generated_eq_model (path key : String) : Funcs.ToPath path key = toPath path key := by
+  simp [Funcs.ToPath, toPath, Go.len_beq_zero, Go.fmtS, String.append_assoc]
+
+/-- utils.ToListPath, as translated, is the model's `toListPath` — on non-negative indices (the
+    model's index is a `Nat`; list positions are never negative) -/
+theorem ToListPath_generated_eq_model (path : String) (i : Nat) :
+    Funcs.ToListPath path (i : Int) = toListPath path i := by
+  simp only [Funcs.ToListPath, toListPath, Go.len_beq_zero, Go.fmtD_nat]
+  split
+  · next h => simp at h; subst h; simp [String.append_assoc]
+  · simp [String.append_assoc]
+
+theorem nonvacuous_ToListPath : Funcs.ToListPath "a.b" (3 : Nat) = "a.b[3]" ∧ toListPath "a.b" 3 = "a.b[3]" := by
+  decide
+
+/-- props.PathSegment.String, as translated: the decimal index of a numeric segment, else the name -/
+theorem PropSegString_generated_eq_model (s : Ptr.PropSeg) :
+    Funcs.PropSegString (Ptr.segToGo s) = (if s.isNum then toString s.index else s.value) := by
+  simp [Funcs.PropSegString, Ptr.segToGo, Go.fmtD_nat]
 
 end Ytk.C02
